@@ -86,7 +86,8 @@ class Worker:
       self.kill()
 
 
-def run_tasks(prop, tasks, jobs, default_timeout, progress=True):
+def run_tasks(prop, tasks, jobs, default_timeout, progress=True,
+              fresh=False):
   """Run tasks on per-profile worker pools. Returns results in task order."""
   results = [None] * len(tasks)
   by_profile = {}
@@ -131,6 +132,11 @@ def run_tasks(prop, tasks, jobs, default_timeout, progress=True):
           w.kill()
           w = None
         results[i] = res
+        if fresh and w is not None:
+          # one task per process: hidden module-level state of the library
+          # can then only come from what the task itself did
+          w.close()
+          w = None
         with lock:
           done[0] += 1
           if progress and (done[0] % 25 == 0 or done[0] == total):
@@ -200,7 +206,8 @@ def main():
   print("[%s] tier=%s seed=%d tasks=%d repo=%s" %
         (prop, tier, seed, len(tasks),
          os.environ.get("VERIF_REPO", "/repo")), flush=True)
-  results = run_tasks(prop, tasks, args.jobs, plan.get("timeout", 1800))
+  results = run_tasks(prop, tasks, args.jobs, plan.get("timeout", 1800),
+                      fresh=bool(plan.get("fresh_worker_per_task")))
 
   infra = [(t, r) for t, r in zip(tasks, results) if "infra_error" in r]
   if infra:
@@ -293,9 +300,9 @@ def main():
         (prop, c["states"], c["transitions"], c["evaluations"],
          c["distinct_nontrivial"], json.dumps(c.get("outcomes", {}))[:300],
          c["exhaustive"], c.get("inconclusive", 0), agg["wall_s"]))
-  if nondeterministic:
-    sys.exit(3)
-  sys.exit(1 if confirmed else 0)
+  if confirmed:
+    sys.exit(1)
+  sys.exit(3 if nondeterministic else 0)
 
 
 if __name__ == "__main__":
